@@ -66,3 +66,48 @@ Proof.
   intros cls name sfx a msg Hc Hn Ha Hp Hrn.
   exact (tmpl_ok_parse (t_segs t) a msg cls name sfx H4 Ha Hc Hn Hp Hrn).
 Qed.
+
+(* ------------------------------------------------------------------ every value
+   The kinds of [kinds_all_values] - every scalar field class: Number, Integer, Float, each with every
+   sign mix-in, String, Boolean, Enum over values and over a class, and the type-and-uniqueness helper -
+   put NO condition on the values: the hypothesis [env_ok] reduces to "as many values as the chain has
+   parameters" and "the field object fits the schema". *)
+Definition domain_is_everything (k : gkind) : bool :=
+  forallb (fun a : absv => match a with None => true | Some _ => false end) (k_domain k).
+
+Lemma all_values_kinds_unrestricted : forallb domain_is_everything kinds_all_values = true.
+Proof. vm_compute. reflexivity. Qed.
+
+Lemma vars_ok_everything : forall dom vals,
+    forallb (fun a : absv => match a with None => true | Some _ => false end) dom = true ->
+    List.length vals = List.length dom -> vars_ok dom vals = true.
+Proof.
+  induction dom as [|a dom IH]; intros [|v vals] Hd Hl; cbn [List.length] in Hl; try discriminate Hl; [reflexivity|].
+  cbn [forallb] in Hd. apply andb_true_iff in Hd as [Ha Hd]. destruct a as [l|]; [discriminate Ha|].
+  cbn [vars_ok absv_has andb]. apply IH; [exact Hd|]. injection Hl as Hl. exact Hl.
+Qed.
+
+Lemma kind_ok_nparams : forall k, In k kinds -> forall g, entry_of (k_entry k) = Some g ->
+    List.length (k_domain k) = g_nparams g.
+Proof.
+  intros k Hin g Hg. pose proof all_kinds_ok as H. rewrite forallb_forall in H. specialize (H k Hin).
+  unfold kind_ok in H. rewrite Hg in H. apply andb_true_iff in H as [H _]. apply andb_true_iff in H as [H _].
+  apply Nat.eqb_eq in H. exact H.
+Qed.
+
+Theorem rejection_is_templated_all_values :
+  forall k, In k kinds_all_values -> forall g, entry_of (k_entry k) = Some g ->
+  forall re self vals, List.length vals = g_nparams g -> attrs_ok (k_schema k) self = true ->
+    match run re self vals (g_prog g) with
+    | Bare _ => False
+    | Named tid _ => exists t, In t templates /\ t_id t = tid /\ tmpl_ok (t_segs t) = true
+    | Pass _ => True
+    end.
+Proof.
+  intros k Hin g Hg re self vals Hlen Hattrs.
+  assert (Hin' : In k kinds) by (unfold kinds; apply in_or_app; left; exact Hin).
+  apply (rejection_is_templated k Hin' g Hg re self vals).
+  unfold env_ok, init_env. cbn [a_vars a_attrs]. rewrite Hattrs, andb_true_r.
+  pose proof all_values_kinds_unrestricted as H. rewrite forallb_forall in H. specialize (H k Hin).
+  apply vars_ok_everything; [exact H|]. rewrite Hlen. symmetry. exact (kind_ok_nparams k Hin' g Hg).
+Qed.
